@@ -7,6 +7,7 @@ package core
 import (
 	"encoding/binary"
 	"encoding/json"
+	"errors"
 	"flag"
 	"fmt"
 	"hash/fnv"
@@ -248,8 +249,8 @@ func LoadReplay(path string) (*Failure, error) {
 
 // ReplayVerdict prints the machine readable outcome of a replay.
 func ReplayVerdict(t *testing.T, property, key, msg string) {
-	if key == "" {
-		fmt.Printf("REPLAY-OK property=%s\n", property)
+	if key == "" || key == "inconclusive" {
+		fmt.Printf("REPLAY-OK property=%s %s\n", property, key)
 		return
 	}
 	fmt.Printf("REPLAY-FAIL property=%s key=%s %s\n", property, key, msg)
@@ -407,4 +408,11 @@ func RealSleep(d time.Duration) {
 func FullStack() string {
 	buf := make([]byte, 8<<20)
 	return string(buf[:runtime.Stack(buf, true)])
+}
+
+// IsInconclusive reports whether a Bubble error means "no verdict" (the case
+// did not finish in wall-clock time and no deadlock could be shown).
+func IsInconclusive(err error) bool {
+	var inc *ErrInconclusive
+	return errors.As(err, &inc)
 }
